@@ -44,7 +44,7 @@ class UndecidedValue(GenericValue):
                     new_code = self._file._token_to_code(new_token)
 
                     yield Replace(
-                        node=self._ast_node,
+                        node=node,
                         file=self._file,
                         new_code=new_code,
                         flag="update",
